@@ -38,6 +38,9 @@ pub struct Cfg {
     pub create_new: bool,
     /// order in which everything is dropped at the end of the case
     pub teardown: u8,
+    /// file only: construct through `map_mut_with_path_builder` instead of `map_mut`
+    #[serde(default)]
+    pub pb: bool,
 }
 
 #[derive(Clone, Copy, Debug, PartialEq, Eq, Serialize, Deserialize)]
@@ -103,6 +106,13 @@ pub enum Op {
         /// also pass with_create(true) to a writable reopen of the existing file
         #[serde(default)]
         create: bool,
+        /// open through the `*_with_path_builder` variant
+        #[serde(default)]
+        pb: bool,
+        /// read-only modes only: file-open flags the caller left set on the `Options` (bit 0 truncate, 1 append,
+        /// 2 create, 3 create_new, 4 write); a read-only open must neutralise all of them
+        #[serde(default)]
+        flags: u8,
     },
 }
 
@@ -236,10 +246,11 @@ pub fn cfg_strategy(p: &Profile) -> BoxedStrategy<Cfg> {
             prop_oneof![4 => Just(0u8), 1 => 1u8..=2],
             any::<bool>(),
             0u8..3,
+            (0u8..4).prop_map(|x| x == 0),
         ),
     )
         .prop_map(
-            |((flavor, freelist, backend, unify, reserved, cap_extra), (min_seg, max_align, magic, retries, off_pages, create_new, teardown))| Cfg {
+            |((flavor, freelist, backend, unify, reserved, cap_extra), (min_seg, max_align, magic, retries, off_pages, create_new, teardown, pb))| Cfg {
                 flavor,
                 freelist,
                 backend,
@@ -253,6 +264,7 @@ pub fn cfg_strategy(p: &Profile) -> BoxedStrategy<Cfg> {
                 off_pages,
                 create_new,
                 teardown,
+                pb,
             },
         )
         .boxed()
@@ -361,8 +373,8 @@ pub fn op_strategy(p: &Profile) -> BoxedStrategy<Op> {
     add(p.w_flush, Just(Op::Flush).boxed());
     add(
         p.w_reopen,
-        (weighted(p.reopen_modes), 0u8..3, any::<bool>())
-            .prop_map(|(mode, cap, create)| Op::Reopen { mode, cap, create })
+        (weighted(p.reopen_modes), 0u8..3, any::<bool>(), (0u8..3).prop_map(|x| x == 0), prop_oneof![2 => Just(0u8), 1 => 0u8..32])
+            .prop_map(|(mode, cap, create, pb, flags)| Op::Reopen { mode, cap, create, pb, flags })
             .boxed(),
     );
     Union::new_weighted(v).boxed()
